@@ -36,11 +36,15 @@ def judge(rec, opts):
         # fresh data for every render (ordinal drops count their accesses)
         return replay.layer(rec["data"][0])
     main = replay.conc(rec["main"])
-    env = replay.make_env(cfg, loader=DictLoader({k: v for k, v in templates.items() if k != main}))
+    # the other layers of the data: front matter (overlay), template globals, environment globals
+    layers = [replay.layer(x) for x in rec["data"]] + [{}, {}, {}]
+    matter, tglobals, eglobals = layers[1], layers[2], layers[3]
+    kw = {"globals": tglobals or None, "overlay_data": matter or None}
+    env = replay.make_env(cfg, loader=DictLoader({k: v for k, v in templates.items() if k != main}), env_globals=eglobals)
     src = templates[main]
     what = constructs(rec)
     try:
-        t = env.from_string(src, name=main)
+        t = env.from_string(src, name=main, **kw)
     except LiquidError:
         return out
     except Exception:  # noqa: BLE001
@@ -53,7 +57,7 @@ def judge(rec, opts):
     except Exception as e:  # noqa: BLE001
         return [(f"str-raises:{type(e).__name__}:{what}", {"src": src})]
     try:
-        t2 = env.from_string(s1, name=main)
+        t2 = env.from_string(s1, name=main, **kw)
     except Exception as e:  # noqa: BLE001
         return [(f"str-does-not-reparse:{type(e).__name__}:{what}", {"src": src, "str": s1, "error": str(e)[:200]})]
     r2 = replay.outcome(lambda: t2.render(**args()))
@@ -62,7 +66,7 @@ def judge(rec, opts):
     s2 = str(t2)
     if s2 != s1:
         try:
-            t3 = env.from_string(s2, name=main)
+            t3 = env.from_string(s2, name=main, **kw)
             r3 = replay.outcome(lambda: t3.render(**args()))
             if not _same(base, r3):
                 out.append((f"second-round-trip-differs:{what}", {"src": src, "str1": s1, "str2": s2, "orig": base, "third": r3}))
@@ -144,7 +148,8 @@ def check(tier: str) -> int:
     plans = [("MC_Exprs", "exprs", {}, 1, 2), ("MC_Flow", "flow", {}, 1, 2), ("MC_Loops", "loops-single", {"Variant": '"single"'}, 1, 1),
              ("MC_Scopes", "scopes", {}, 1, 2), ("MC_Trim", "trim-markers", {"Variant": '"markers"'}, 2, 3),
              ("MC_Trim", "trim-blank", {"Variant": '"blank"'}, 2, 3), ("MC_Bool", "bool", {"Variant": '"ops"'}, 1, 1), ("MC_Bool", "bool-trees", {"Variant": '"trees"'}, 1, 1),
-             ("MC_Confused", "confused", {}, 1, 1), ("MC_Sites", "sites", {}, 2, 3)]
+             ("MC_Confused", "confused", {}, 1, 1), ("MC_Sites", "sites", {}, 2, 3), ("MC_Cycles", "cycles", {}, 3, 4), ("MC_Short", "short", {}, 2, 2),
+             ("MC_Layers", "layers-x", {"Name": '"x"'}, 4, 4)]
     for module, name, consts, q, t in plans:
         r = gen.run_focus(chk, module, name, max_top=t if tier == "thorough" else q, extra_constants=consts,
                           export="ExportInputs", invariants=(), timeout=6000)
